@@ -140,6 +140,7 @@ class ReadStand:
         self.total = 0
         self.events: List[dict] = []
         self.partial_last = False
+        self.kept: List[tuple] = []     # (message object handed out, the frame it was read from, header size)
 
     def restore(self):
         self.c._connected = False       # keep Client.__del__ from talking to a real select() on a fake socket
@@ -240,6 +241,8 @@ class ReadStand:
                     # recv_time is stamped by the reader: excluded from the comparison (bytes 16..24)
                     faithful = (hb[:16] + hb[24:] == want[:16] + want[24:hs]) and bytes(m.data) == want[hs:]
                 res = {"k": "msg", "id": fid if want is not None else -1, "faithful": faithful, "t": m.header.msg_type}
+                if want is not None:
+                    self.kept.append((m, want, hs))
         except Blocks:
             res = {"k": "blocks"}
         except Exception as e:  # noqa
@@ -257,7 +260,13 @@ class ReadStand:
             left, desync = [], False
         elif self.partial_last and left and left[-1] == self.bounds[-1][0]:
             left = left[:-1] if False else left
+        # messages returned EARLIER (the caller may still hold them) keep the bytes they were returned with
+        earlier = True
+        for m0, want0, hs0 in self.kept:
+            hb0 = bytes(m0.header)
+            if not ((hb0[:16] + hb0[24:] == want0[:16] + want0[24:hs0]) and bytes(m0.data) == want0[hs0:]):
+                earlier = False
         ev = {"a": "Read", "tm": tm, "ack": bool(ack), "sync": bool(sync), "res": res, "connected": bool(c.connected),
-              "left": left, "desync": desync}
+              "left": left, "desync": desync, "earlier": earlier}
         self.events.append(ev)
         return ev
